@@ -189,11 +189,17 @@ fn judge_template(prog: &Program, base: &Base, sc: &Scenario, r: &RunResult, out
     generic(sc, base, r, out);
     let pred = predicted(prog, &sc.limits);
     let got = r.main_outcome().clone();
-    let ok = if pred.is_empty() {
+    let mut ok = if pred.is_empty() {
         got == Outcome::Value(prog.value())
     } else {
         matches!(&got, Outcome::Violation(v) if pred.contains(&v.as_str()))
     };
+    // two budgets tripping on the same pull: when another violation is delivered as the element
+    // right after the last permitted one, the consumer's own budget is drawn for that pull too and
+    // may be the one reported (examined == L exactly); both are correct outcomes
+    if !ok && !pred.is_empty() && sc.limits.search.map_or(false, |l| prog.max_search() >= l as u64) {
+        ok = matches!(&got, Outcome::Violation(v) if v == "MaximumSearch");
+    }
     if !ok {
         let which = match (&got, pred.first()) {
             (Outcome::Value(_), Some(k)) => format!("{k} not raised at its threshold"),
@@ -437,11 +443,15 @@ fn judge_history(prog: &Program, sc: &Scenario, r: &RunResult, out: &mut JobResu
                     pred.push("MaximumSearch");
                 }
                 let got = &res.outcome;
-                let ok = if pred.is_empty() {
+                let mut ok = if pred.is_empty() {
                     matches!(got, Outcome::Value(v) if *v == val)
                 } else {
                     matches!(got, Outcome::Violation(v) if pred.contains(&v.as_str()))
                 };
+                // two budgets tripping on the same pull (see judge_template)
+                if !ok && !pred.is_empty() && l.search.map_or(false, |x| s >= x as u64) {
+                    ok = matches!(got, Outcome::Violation(v) if v == "MaximumSearch");
+                }
                 if !ok {
                     let what = match got {
                         Outcome::Value(_) if pred.contains(&"MaximumUDCall") => "call budget not cumulative across host calls",
